@@ -85,17 +85,18 @@ func (s *HTTPMessageSignatures) init() error {
 			"failed loading keystore for http_message_signatures strategy").CausedBy(err)
 	}
 
-	var kse *keystore.Entry
-
-	if len(s.Signer.KeyID) == 0 {
-		kse, err = ks.Entries()[0], nil
-	} else {
-		kse, err = ks.GetKey(s.Signer.KeyID)
-	}
-
+	kse, err := keystore.SelectKey(ks, s.Signer.KeyID)
 	if err != nil {
 		return errorchain.NewWithMessage(heimdall.ErrConfiguration,
 			"failed retrieving key from key store for http_message_signatures strategy").CausedBy(err)
+	}
+
+	for _, entry := range ks.Entries() {
+		if err = entry.CheckJOSESupport(); err != nil {
+			return errorchain.NewWithMessage(heimdall.ErrConfiguration,
+				"key store contains a key which cannot be used by the http_message_signatures strategy").
+				CausedBy(err)
+		}
 	}
 
 	if len(kse.CertChain) != 0 {
@@ -224,7 +225,8 @@ func getECDSAAlgorithm(keySize int) httpsig.SignatureAlgorithm {
 		return httpsig.EcdsaP256Sha256
 	case 384: //nolint: mnd
 		return httpsig.EcdsaP384Sha384
-	case 512: //nolint: mnd
+	case 512, 521: //nolint: mnd
+		// the P-521 curve: the key store reports its size as 521
 		return httpsig.EcdsaP521Sha512
 	default:
 		panic(fmt.Sprintf("unsupported ECDSA key size: %d", keySize))
